@@ -180,12 +180,21 @@ fn case_body(idx: usize, case: &Case, rt: &Runtime, iour: bool, sink: &Sink<'_>)
             if c >= wk_total {
                 break;
             }
-            // once three steps have waited the full time in vain the alarm stands: later ones wait briefly
-            let limit = if HANGS.load(Ordering::SeqCst) < 3 { WAKE_TIMEOUT } else { Duration::from_millis(1500) };
+            // once three steps have waited the full time in vain the alarm stands: later ones wait briefly, so that a
+            // broken tree is reported in bounded time
+            let limit = match HANGS.load(Ordering::SeqCst) {
+                0..=2 => WAKE_TIMEOUT,
+                3..=9 => Duration::from_millis(1500),
+                10..=49 => Duration::from_millis(100),
+                _ => Duration::from_millis(5),
+            };
             if t0.elapsed() > limit {
                 HANGS.fetch_add(1, Ordering::SeqCst);
                 sink.problem("hang", json!({"kind": "wake_missing", "a": step.a, "leaf": leaf, "drv": case.drv}),
-                    format!("step {si} ({}): the model promises {} wake-ups of the task in total, {c} arrived within {WAKE_TIMEOUT:?}", step.a, wk_total), si);
+                    format!("step {si} ({}): the model promises {} wake-ups of the task in total, {c} arrived within {limit:?}", step.a, wk_total), si);
+                if fin != "live" {
+                    drop_oracle(sink, si, rt, &mut brs);
+                }
                 break 'steps;
             }
             spins += 1;
